@@ -25,6 +25,7 @@ def sval(x):
 
 def scores_part(ck, tier):
     probs = GE.explore(ck)
+    big_done = [0]
     for c in probs:
         pb = c["pb"]
         idn = GE.ident(pb)
@@ -51,6 +52,43 @@ def scores_part(ck, tier):
         if not (SL.close(loo, want_loo, mag2) and SL.close(float(loo2), want_loo, mag2)):
             ck.violation("leave-one-out score = sum of log predictive densities obtained by actually removing each point",
                          {**idn, "want": want_loo, "loo_likelihood": loo, "from_gradient_variant": float(loo2)}, site="GpRegressor.loo_likelihood")
+        # a large data set: Rep copies 1e5 apart (squared-exponential prior, constant mean, independent errors), also in other units
+        sig_ = G.rmat(pb["sig"])
+        if pb["kern"]["k"] == "se" and len(pb["mean"]["th"]) == 1 and sig_.any() and np.allclose(sig_, np.diag(np.diag(sig_))) and big_done[0] < 6:
+            big_done[0] += 1
+            from inference.gp import GpRegressor
+            R, sc2 = int(c["rep"]), 2.0 ** int(c["scale_log2"])
+            X = np.array(pb["X"], dtype=float)
+            n_, d_ = X.shape
+            XR = np.concatenate([X + np.array([1e5 * b] + [0.0] * (d_ - 1)) for b in range(R)])
+            yR, eR = np.tile(np.array(pb["y"], dtype=float), R), np.tile(np.sqrt(np.diag(sig_)), R)
+            hpS = hp.copy()
+            hpS[0] *= sc2
+            hpS[1] += np.log(sc2)
+            import warnings
+            try:
+                with warnings.catch_warnings(), np.errstate(all="ignore"):
+                    warnings.simplefilter("ignore")
+                    mk = lambda y__, e__, h__: GpRegressor(x=XR if d_ > 1 else XR[:, 0], y=y__, y_err=e__, hyperpars=h__,
+                                                           kernel=G.build_kernel(pb["kern"], d_, n_ * R)[0], mean=G.build_mean(pb["mean"])[0])
+                    gR, gS = mk(yR, eR, hp), mk(yR * sc2, eR * sc2, hpS)
+                    got = {"lml": float(gR.marginal_likelihood(hp)), "lml_g": float(gR.marginal_likelihood_gradient(hp)[0]),
+                           "loo": float(gR.loo_likelihood(hp)), "loo_g": float(gR.loo_likelihood_gradient(hp)[0]),
+                           "lml_units": float(gS.marginal_likelihood(hpS)), "lml_g_units": float(gS.marginal_likelihood_gradient(hpS)[0]),
+                           "loo_units": float(gS.loo_likelihood(hpS)), "loo_g_units": float(gS.loo_likelihood_gradient(hpS)[0])}
+            except Exception as ex:
+                ck.violation("model-selection call raised (large data set)", {**idn, "copies": R, "error": repr(ex)[:300]}, site="GpRegressor.scores")
+            else:
+                ck.case(str(idn) + "rep")
+                wl, wo, sh = sval(c["lml_rep"]), R * want_loo, sval(c["unit_shift"])
+                wants = {"lml": wl, "lml_g": wl, "loo": wo, "loo_g": wo, "lml_units": wl + sh, "lml_g_units": wl + sh, "loo_units": wo + sh,
+                         "loo_g_units": wo + sh}
+                badk = [k for k in wants if not SL.close(got[k], wants[k], abs(wants[k]) + R * (mag + mag2))]
+                if badk:
+                    ck.violation("marginal likelihood / leave-one-out score of a large data set (copies of the small one, far apart; also in "
+                                 "units 2^-12 times smaller)", {**idn, "copies_1e5_apart": R, "data_points": n_ * R, "differs": badk,
+                                                                "want": {k: wants[k] for k in badk}, "got": {k: got[k] for k in badk}},
+                                 site="GpRegressor.marginal_likelihood:large" if any(k.startswith("lml") for k in badk) else "GpRegressor.loo_likelihood:large")
         want_mv = np.array([[G.fr(m[0]), G.fr(m[1])] for m in c["loomv"]])
         if not (GE.close(mu_l, want_mv[:, 0], float(np.max(np.abs(pb["y"])) + 1)) and GE.close(np.asarray(sd_l) ** 2, want_mv[:, 1])):
             ck.violation("leave-one-out predictions = prediction of each observation from the rest",
